@@ -127,8 +127,22 @@ func touchAttrs(m pcommon.Map, mk string, structural bool) {
 
 // ---------------------------------------------------------------------------------- logs
 
+// variant 3 of every signal: a LEAFLESS payload -- resources and scopes with attributes and schema URLs, but no log record /
+// span / data point / sample ("every payload of every signal": it is delivered, shared and protected like any other; seeded
+// change C06-8 returned early from the fan-out for payloads without items).
 func buildLogs(variant int) plog.Logs {
 	ld := plog.NewLogs()
+	if variant == 3 {
+		for r := 0; r < 2; r++ {
+			rl := ld.ResourceLogs().AppendEmpty()
+			rl.SetSchemaUrl(fmt.Sprintf("https://r%d", r))
+			fillAttrs(rl.Resource().Attributes(), fmt.Sprintf("r%d", r), 0)
+			sl := rl.ScopeLogs().AppendEmpty()
+			sl.Scope().SetName("scope-without-records")
+			fillAttrs(sl.Scope().Attributes(), "sc", 2)
+		}
+		return ld
+	}
 	if variant == 2 { // minimal: one record, one attribute per level
 		lr := ld.ResourceLogs().AppendEmpty()
 		fillAttrs(lr.Resource().Attributes(), "r", 2)
@@ -230,6 +244,21 @@ func fillNumberPoints(dps pmetric.NumberDataPointSlice, tag string, variant int)
 }
 
 func buildMetrics(variant int) pmetric.Metrics {
+	if variant == 3 {
+		md := pmetric.NewMetrics()
+		for r := 0; r < 2; r++ {
+			rm := md.ResourceMetrics().AppendEmpty()
+			rm.SetSchemaUrl(fmt.Sprintf("https://r%d", r))
+			fillAttrs(rm.Resource().Attributes(), fmt.Sprintf("r%d", r), 0)
+			sm := rm.ScopeMetrics().AppendEmpty()
+			sm.Scope().SetName("scope-without-points")
+			m := sm.Metrics().AppendEmpty()
+			m.SetName("gauge-without-points")
+			m.SetUnit("1")
+			m.SetEmptyGauge()
+		}
+		return md
+	}
 	md := pmetric.NewMetrics()
 	nres := 2
 	if variant == 2 {
@@ -400,6 +429,18 @@ func bytesMetrics(md pmetric.Metrics) []byte {
 // ---------------------------------------------------------------------------------- traces
 
 func buildTraces(variant int) ptrace.Traces {
+	if variant == 3 {
+		td := ptrace.NewTraces()
+		for r := 0; r < 2; r++ {
+			rs := td.ResourceSpans().AppendEmpty()
+			rs.SetSchemaUrl(fmt.Sprintf("https://r%d", r))
+			fillAttrs(rs.Resource().Attributes(), fmt.Sprintf("r%d", r), 0)
+			ss := rs.ScopeSpans().AppendEmpty()
+			ss.Scope().SetName("scope-without-spans")
+			fillAttrs(ss.Scope().Attributes(), "sc", 2)
+		}
+		return td
+	}
 	td := ptrace.NewTraces()
 	nres := 2
 	if variant == 2 {
@@ -498,6 +539,18 @@ func bytesTraces(td ptrace.Traces) []byte {
 // ---------------------------------------------------------------------------------- profiles
 
 func buildProfiles(variant int) pprofile.Profiles {
+	if variant == 3 {
+		pd := pprofile.NewProfiles()
+		for r := 0; r < 2; r++ {
+			rp := pd.ResourceProfiles().AppendEmpty()
+			rp.SetSchemaUrl(fmt.Sprintf("https://r%d", r))
+			fillAttrs(rp.Resource().Attributes(), fmt.Sprintf("r%d", r), 0)
+			sp := rp.ScopeProfiles().AppendEmpty()
+			sp.Scope().SetName("scope-without-profiles")
+			fillAttrs(sp.Scope().Attributes(), "sc", 2)
+		}
+		return pd
+	}
 	pd := pprofile.NewProfiles()
 	nres := 2
 	if variant == 2 {
